@@ -26,7 +26,7 @@ def _is_unchecked(name):
     return name.startswith(CURSOR + "::") and name.rsplit("::", 1)[-1].split("<")[0] in UNCHECKED
 
 
-def _remaining_guards(fn):
+def _remaining_guards(fn, _facts=None, depth=0, want_switch=True):
     """blocks that compare something with a cursor's `remaining` (field or remaining() call) and branch on it"""
     out = []
     for b, i, pl, rv, ln in fn.assigns():
@@ -46,12 +46,29 @@ def _remaining_guards(fn):
                             is_rem = True
                 if is_rem:
                     t = fn.term(b)
-                    if t[0] == "switch":
+                    if t[0] == "switch" or not want_switch:
                         out.append(b)
-    # assert!(x <= self.remaining) lowers to a switch as well (covered); checked wrappers used as guards:
-    for c in fn.calls():
-        if c.name.startswith(CURSOR + "::") and c.name.rsplit("::", 1)[-1].split("<")[0] in ("skip_bytes", "read_next", "read_bytes"):
-            pass
+    # quantified guard: `if cursors.iter().any(|c| c.remaining() < n) { return Err }` — the comparison lives in the closure handed
+    # to Iterator::any / all, the branch on its result is the guard
+    if _facts is not None and depth == 0:
+        for c in fn.calls():
+            if c.name.rsplit("::", 1)[-1] in ("any", "all") and "Iterator" in c.name and c.target is not None and not c.dst[1]:
+                clos = [a for a in c.args[1:] if a[0] in ("c", "m")]
+                hit = False
+                for a in clos:
+                    ty = fn.locals[a[1][0]] if a[1][0] < len(fn.locals) else ""
+                    m = re.search(r"\{closure@|\[closure@", ty)
+                    for b2, i2, pl2, rv2, ln2 in fn.assigns():
+                        if pl2[0] == a[1][0] and not pl2[1] and rv2[0] == "agg" and rv2[1][0] == "closure":
+                            crec = _facts.fn(rv2[1][1])
+                            if crec and _remaining_guards(Fn(crec), _facts, 1, want_switch=False):
+                                hit = True
+                if hit:
+                    for b in fn.reachable_from(c.target):
+                        t = fn.term(b)
+                        if t[0] == "switch" and t[1][0] in ("c", "m") and t[1][1][0] == c.dst[0]:
+                            out.append(b)
+                            break
     return out
 
 
@@ -59,7 +76,7 @@ def run(ctx):
     facts = ctx["facts"]
     cg = CallGraph(facts)
     res = []
-    r = RuleResult("C19-GUARD", "unchecked Parquet cursor reads are dominated by a `remaining` comparison, or wrapped in unsafe fns whose callers are", floor=25)
+    r = RuleResult("C19-GUARD", "unchecked Parquet cursor reads are dominated by a `remaining` comparison, or wrapped in unsafe fns whose callers are", floor=21)
     fn_cache = {}
 
     def F(name):
@@ -69,7 +86,7 @@ def run(ctx):
         return fn_cache[name]
 
     def site_guarded(fn, bb, call=None):
-        if any(fn.dominates(g, bb) and g != bb for g in _remaining_guards(fn)):
+        if any(fn.dominates(g, bb) and g != bb for g in _remaining_guards(fn, facts)):
             return "compared with remaining"
         # cursor freshly cut to an exact size: take_next(N)?.read_next_unchecked::<T>() with size_of::<T>() <= N
         if call is not None and call.args:
@@ -86,7 +103,7 @@ def run(ctx):
             if pf is not None:
                 for b2, i2, pl2, rv2, ln2 in pf.assigns():
                     if rv2[0] == "agg" and rv2[1][0] == "closure" and rv2[1][1] == fn.path:
-                        if any(pf.dominates(g, b2) for g in _remaining_guards(pf)):
+                        if any(pf.dominates(g, b2) for g in _remaining_guards(pf, facts)):
                             return "guard in the enclosing function dominates the closure"
         return None
 
@@ -140,6 +157,12 @@ def run(ctx):
                 r.inst({"fn": fn.id, "primitive": prim, "line": c.line, "how": "UNGUARDED via callers", "callers": [b[0] for b in bad][:4]}, False)
                 r.violate(fn.id, f"{prim}", f"unchecked cursor read ({prim}) in an unsafe fn whose caller(s) {[b[0].rsplit('::', 2)[-2] + '::' + b[0].rsplit('::', 1)[-1] for b in bad][:3]} "
                           "do not compare the needed size with the cursor's remaining bytes: a truncated or lying page reads past the buffer", rec["file"], c.line)
+                continue
+            meta = cg.nodes.get(fn.id, {})
+            if not cg.callers(fn.id) and str(meta.get("vis", "")).startswith("Restricted") and meta.get("dk") == "Fn" and not meta.get("trait_item"):
+                r.inst({"fn": fn.id, "primitive": prim, "line": c.line, "how": "module-private free function with no caller and no address taken (dead code)"})
+                r.exempt(fn.id, "module-private free function that nothing calls or references: its unchecked reads are unreachable; "
+                                "the obligation returns as soon as a caller appears")
                 continue
             r.inst({"fn": fn.id, "primitive": prim, "line": c.line, "how": "UNGUARDED"}, False)
             r.violate(fn.id, f"{prim}", f"unchecked cursor read ({prim}) not dominated by a comparison with the cursor's remaining bytes: a truncated or lying "
